@@ -195,5 +195,77 @@ pub fn state_corpus<K: Kernel<D, Scalar = f64>, const D: usize>(pts: &[[f64; D]]
     if is_valid_triangulation(&d) {
         out.push(("incremental".to_string(), d));
     }
+    if let Some(d) = build_recycled::<K, D>(pts, TopologyGuarantee::PLManifold) {
+        out.push(("recycled_slots".to_string(), d));
+    }
     out
+}
+
+/// Incremental build of `pts` in which every vertex slot was occupied and vacated before the real vertex moved in,
+/// earlier slots more often than later ones: the stored keys have *descending versions with ascending slot index*, so
+/// every pair of vertices is ordered differently by (index, version) and by the raw key value. Such keys arise in any
+/// long-lived triangulation (insertions after removals) but never in a freshly built one.
+/// Dummies are inserted and removed through `insert` / `remove_vertex` while there are no cells and through the
+/// Edit API (k=1 insert at the barycentre of the first cell, k=1 remove) afterwards.
+pub fn build_recycled<K: Kernel<D, Scalar = f64>, const D: usize>(pts: &[[f64; D]], g: TopologyGuarantee) -> Option<DtI<K, D>> {
+    let mut dt: DtI<K, D> = DelaunayTriangulation::with_empty_kernel_and_topology_guarantee(K::default(), g);
+    let n = pts.len();
+    let mut uid = 50_000u32;
+    let find = |dt: &DtI<K, D>, c: &[f64; D]| dt.vertices().position(|(_, v)| v.point().coords() == c);
+    for (j, p) in pts.iter().enumerate() {
+        for c in 0..(n - j) {
+            uid += 1;
+            if dt.number_of_cells() == 0 {
+                let dummy: [f64; D] = std::array::from_fn(|i| 1000.0 + 37.0 * (i as f64 + 1.0) * (c as f64 + 1.0) + j as f64);
+                if !matches!(model::apply(&mut dt, &Op::InsertAt { c: dummy.to_vec(), uid, stats: false }, &[]), Outcome::Ok { .. }) {
+                    return None;
+                }
+                // the dummy is the most recently stored vertex; find it by its (possibly perturbed) distance to the target
+                let idx = dt.vertices().enumerate().min_by(|a, b| {
+                    let da: f64 = (0..D).map(|k| (a.1.1.point().coords()[k] - dummy[k]).powi(2)).sum();
+                    let db: f64 = (0..D).map(|k| (b.1.1.point().coords()[k] - dummy[k]).powi(2)).sum();
+                    da.total_cmp(&db)
+                })?.0;
+                if !matches!(model::apply(&mut dt, &Op::Remove { v: idx }, &[]), Outcome::Ok { .. }) {
+                    return None;
+                }
+            } else {
+                let first = dt.cells().next()?.1;
+                let keys = first.vertices().to_vec();
+                let mut bc = [0.0; D];
+                for k in &keys {
+                    let q = dt.tds().get_vertex_by_key(*k)?.point().coords();
+                    for i in 0..D {
+                        bc[i] += q[i] / (D as f64 + 1.0);
+                    }
+                }
+                if !matches!(model::apply(&mut dt, &Op::K1Insert { cell: 0, c: bc.to_vec(), uid }, &[]), Outcome::Ok { .. }) {
+                    return None;
+                }
+                let idx = find(&dt, &bc)?;
+                if !matches!(model::apply(&mut dt, &Op::K1Remove { v: idx }, &[]), Outcome::Ok { .. }) {
+                    return None;
+                }
+            }
+        }
+        if !matches!(model::apply(&mut dt, &Op::InsertAt { c: p.to_vec(), uid: 40_000 + j as u32, stats: false }, &[]), Outcome::Ok { .. }) {
+            return None;
+        }
+    }
+    (dt.number_of_vertices() == n && is_valid_triangulation(&dt)).then_some(dt)
+}
+
+/// number of vertex pairs that (index, version) order and raw key order rank differently
+pub fn key_order_inversions<K: Kernel<D, Scalar = f64>, const D: usize>(dt: &DtI<K, D>) -> usize {
+    let ks: Vec<u64> = dt.vertices().map(|(k, _)| crate::snap::kffi(k)).collect();
+    let mut n = 0;
+    for a in 0..ks.len() {
+        for b in 0..ks.len() {
+            let (ia, va, ib, vb) = (ks[a] & 0xffff_ffff, ks[a] >> 32, ks[b] & 0xffff_ffff, ks[b] >> 32);
+            if (ia, va) < (ib, vb) && ks[a] > ks[b] {
+                n += 1;
+            }
+        }
+    }
+    n
 }
